@@ -35,7 +35,8 @@ TIERS = {"quick": {"n": 330, "search_n": 120}, "thorough": {"n": 4000, "search_n
 RULE = ("a case = LRI/LRU with max_size 1-4 (on_miss in 30%), 0..max_size+1 initial items, 2-3 real threads x 1-3 "
         "public operations over max_size+2 keys, run under several deterministic schedules that pre-empt before chosen "
         "bytecodes executed inside cacheutils.py (random 0-3 pre-emptions; every 10th case: EVERY single pre-emption "
-        "position of one thread's first operations); observed per schedule: each thread's results, dict(cache), len, "
+        "position of one thread; every 10th case: a same-key check-then-act race template swept the same way; 6 (quick) / 120 "
+        "(thorough) two-thread one-operation programs on the full grid of <= 2 pre-emptions); observed per schedule: each thread's results, dict(cache), len, "
         "eviction order by probing with fresh keys, order of outermost lock acquisitions.  non-trivial = some schedule "
         "actually switched threads inside cacheutils AND (a thread blocked on the lock held by a pre-empted thread, or "
         ">= 2 distinct outcomes were seen); distinct = distinct canonical case hash")
@@ -243,10 +244,32 @@ def _grid_case(rng, cap):
             "threads": [[a], [b]], "scheds": [["grid2", rng.randrange(2), cap]]}
 
 
+def _race_case(rng):
+    """check-then-act races: two threads, one or two operations each, ALL on the same key (absent or
+    present, cache full or not), every single pre-emption position of thread a; thread b runs in
+    the window"""
+    mx = rng.choice([1, 2, 2, 3])
+    k = rng.choice([0, 2])               # 0 is in the initial contents, 2 is not
+    def one(i):
+        v = 10 + 3 * i + rng.randrange(3)
+        return rng.choice([["setdefault", k, v], ["setdefault", k, v], ["set", k, v], ["get", k], ["getd", k, v],
+                           ["del", k], ["pop", k], ["popd", k, v], ["update", [[k, v]], "list"], ["ior", [[k, v]], "dict"],
+                           ["in", k], ["popitem"], ["len"], ["copy"]])
+    ta = [one(0)] + ([one(1)] if rng.random() < 0.3 else [])
+    tb = [one(2)] + ([one(3)] if rng.random() < 0.5 else [])
+    a = rng.randrange(2)
+    return {"kind": rng.choice(["LRI", "LRU"]), "max": mx, "on_miss": rng.choice([0, 0, 1]),
+            "init": [[0, 1], [1, 2], [5, 3]][:rng.choice([mx, mx, max(0, mx - 1)])],
+            "threads": [ta, tb] if a == 0 else [tb, ta], "scheds": _sys_scheds(a, 1 - a)}
+
+
 def generate(rng, tier, n):
     for _ in range(6 if tier == "quick" else 120):
         yield _grid_case(rng, 300 if tier == "quick" else 2500)
     for i in range(n):
+        if i % 10 == 7:
+            yield _race_case(rng)
+            continue
         c = _gen_program(rng, tier)
         nth = len(c["threads"])
         if i % 10 == 3:
